@@ -49,16 +49,23 @@ Lemma attrs_in_descriptor :
 Proof. vm_compute. repeat split; auto 20. Qed.
 
 (* ---- decoding an envelope ------------------------------------------------------------------------- *)
-Theorem dec_lp_envelope vs els :
-  envelope_of vs els -> dec_lp (lp_wire els) = no_fragmentation lp_fields (Ok vs).
+Theorem gen_decode_envelope vs els :
+  envelope_of vs els -> gen_decode parse_model LP_PACKET lp_fields true (lp_wire els) = Ok vs.
 Proof.
   intros (HF & Hok & Hl & els0 & He & Hw).
-  unfold dec_lp, gen_decode, lp_wire. change TYPE_LP_PACKET with LP_PACKET.
-  rewrite pact_tlv by (try exact Hl; reflexivity). cbn [bind]. f_equal.
-  fold lp_fields. fold lp_depth.
+  unfold gen_decode, lp_wire.
+  rewrite pact_tlv by (try exact Hl; reflexivity). cbn [bind].
+  fold lp_depth.
   rewrite (parse_model_with_unknown lp_depth lp_fields els0 els Hw Hok).
   apply parse_encode_roundtrip; [exact wf_lp_fields|exact HF|exact He|].
   pose proof (ser_els_with_unknown_length _ _ _ Hw). lia.
+Qed.
+
+Theorem dec_lp_envelope vs els :
+  envelope_of vs els -> dec_lp (lp_wire els) = no_fragmentation lp_fields (Ok vs).
+Proof.
+  intros He. unfold dec_lp. change TYPE_LP_PACKET with LP_PACKET. fold lp_fields.
+  rewrite (gen_decode_envelope vs els He). reflexivity.
 Qed.
 
 Definition unfragmented (vs : list value) : Prop :=
